@@ -437,7 +437,10 @@ theorem clear_shape (C : Crypto) (c : Core) (d : Disk) (a : Abs) (h : Rep C c d 
       ∧ (d.applyAll j01).oplog = d.oplog.write (Spec.entriesOffset + c.oplog.entriesByteLength)
           (frame (encEntry { bitfield := some ⟨true, s, e - s⟩ }) c.oplog.currentBit false)
       ∧ c1.tree = c.tree
-      ∧ (∃ cc, c1.header = { c.header with contiguous := cc }) := by
+      ∧ (∃ cc, c1.header = { c.header with contiguous := cc })
+      ∧ (c.clear d s e).journal = j01 ++ c1.maybeFlush.2
+      ∧ (∃ j2, j01 = SOp.write .oplog (Spec.entriesOffset + c.oplog.entriesByteLength) (frame (encEntry { bitfield := some ⟨true, s, e - s⟩ }) c.oplog.currentBit false) :: j2
+          ∧ (∀ op ∈ j2, op.store = .data) ∧ j2.length ≤ 1) := by
   have hge : ¬ s ≥ e := by omega
   have hse : s < e := by omega
   have hsn : s < a.blocks.size := hv hse
@@ -557,7 +560,9 @@ theorem clear_shape (C : Crypto) (c : Core) (d : Disk) (a : Abs) (h : Rep C c d 
   have hd2op : ((d.applyAll ent.2).applyAll j2).oplog = (d.applyAll ent.2).oplog := by
     have := Journal.applyAll_other (d.applyAll ent.2) j2 .oplog (fun op hop => by rw [hj2store op hop]; decide)
     simpa [Disk.get] using this
-  refine ⟨c1, ent.2 ++ j2, ?_, ?_, ?_, ?_, c1bf, ?_, ?_, c1sec, ?_, ?_, c1tree, ?_⟩
+  have hjournal : (c.clear d s e).journal = ent.2 ++ j2 ++ c1.maybeFlush.2 := by
+    simp only [Core.clear, hge, ite_false, hbf, hs', he', hoff, he0, hrng, hnopanic, hent, hj2, hhd, hc1]
+  refine ⟨c1, ent.2 ++ j2, ?_, ?_, ?_, ?_, c1bf, ?_, ?_, c1sec, ?_, ?_, c1tree, ?_, hjournal, ⟨j2, by rw [← hent]; rfl, hj2store, by rw [← hj2]; split <;> simp⟩⟩
   · rw [hstep, List.append_assoc]
   · rw [habs, hsplit]
     refine { writer := ?_, tree := ?_, nodes := ?_, mapwf := ?_, bits := ?_, heldLt := ?_, contig := ?_, data := hdata2, small := h.small }
@@ -691,7 +696,10 @@ theorem append_shape (C : Crypto) (hC : HashWF C) (c : Core) (d : Disk) (a : Abs
       ∧ c1.tree.fork = c.tree.fork
       ∧ (∃ rh sg cc, c1.header = { c.header with tree := { c.header.tree with rootHash := rh, signature := sg, length := a.blocks.size + batch.length }, contiguous := cc }
           ∧ (∃ l, rh = C.tree l) ∧ (SignWF C → sg.length = 64))
-      ∧ (SignWF C → a.blocks.size + batch.length < 2 ^ 62 → batch.length < 2 ^ 20 → U64 c.tree.fork → OplogBytes.EntryOK entry) := by
+      ∧ (SignWF C → a.blocks.size + batch.length < 2 ^ 62 → batch.length < 2 ^ 20 → U64 c.tree.fork → OplogBytes.EntryOK entry)
+      ∧ (c.appendBatch C batch).journal = j01 ++ c1.maybeFlush.2
+      ∧ j01 = [SOp.write .data (totalBytes a.blocks) batch.flatten,
+               SOp.write .oplog (Spec.entriesOffset + c.oplog.entriesByteLength) (frame (encEntry entry) c.oplog.currentBit false)] := by
   obtain ⟨seed, hseed⟩ : ∃ seed, c.secret = some seed := Option.isSome_iff_exists.mp h.writer
   have hlen : c.tree.length = a.blocks.size := h.tree.length
   have hbytes : c.tree.byteLength = totalBytes a.blocks := h.tree.bytes
@@ -856,7 +864,10 @@ theorem append_shape (C : Crypto) (hC : HashWF C) (c : Core) (d : Disk) (a : Abs
       · cases hcm
       · cases hcm
         simp only [hup.1, ite_true, hup.2]
-  refine ⟨c1, [SOp.write .data c.tree.byteLength batch.flatten] ++ ent.2, entry, ?_, ?_, ?_, ?_, ?_, ?_, ?_, ?_, ?_, c1sec, ?_, ?_, ?_, ?_, ?_⟩
+  have hjournal : (c.appendBatch C batch).journal = [SOp.write .data c.tree.byteLength batch.flatten] ++ ent.2 ++ c1.maybeFlush.2 := by
+    simp only [Core.appendBatch, hseed, hemp, Bool.false_eq_true, ite_false, hcs0, hcs, hanc, hbl, heo, hbf, hhd2,
+      hent, hcommit, hc1]
+  refine ⟨c1, [SOp.write .data c.tree.byteLength batch.flatten] ++ ent.2, entry, ?_, ?_, ?_, ?_, ?_, ?_, ?_, ?_, ?_, c1sec, ?_, ?_, ?_, ?_, ?_, hjournal, by rw [hbytes, ← hent]; rfl⟩
   · rw [hstep, List.append_assoc]
   · rw [habs, hsplit]
     refine { writer := ?_, tree := ?_, nodes := ?_, mapwf := ?_, bits := ?_, heldLt := ?_, contig := ?_, data := ?_, small := ?_ }
